@@ -98,19 +98,19 @@ type world struct {
 	nseq     int
 
 	// callbacks seen
-	xOut, ySync          bool
-	xWF, xWC, yWF, yWC   int
-	yIn                  int
-	ypend                map[int]bool
-	ylast                int
-	xVoted               map[int]bool
-	xret                 ret
-	xfCached             bool
-	handlerBusy          bool // a handler call of X (sendVoteproof / finish) has not returned
-	handlerK             int
-	events               []map[string]interface{} // binding B log
-	record               bool
-	lastRecv             string // class of the error the last Receive call returned
+	xOut, ySync        bool
+	xWF, xWC, yWF, yWC int
+	yIn                int
+	ypend              map[int]bool
+	ylast              int
+	xVoted             map[int]bool
+	xret               ret
+	xfCached           bool
+	handlerBusy        bool // a handler call of X (sendVoteproof / finish) has not returned
+	handlerK           int
+	events             []map[string]interface{} // binding B log
+	record             bool
+	lastRecv           string // class of the error the last Receive call returned
 
 	// scripted answers
 	askGood  bool
